@@ -225,13 +225,15 @@ where
         self.goal_tree.clear();
         let pd = self.problem_def.as_ref().unwrap();
 
-        // Initialise the trees beginning from start and goal states.
-        let start_state = pd.start_states[0].clone();
-        let start_node = Node {
-            state: start_state,
-            parent_index: None,
-        };
-        self.start_tree.push(start_node);
+        // Initialise the trees beginning from start and goal states. With an empty start list the
+        // start tree stays empty and solve() reports InvalidStartState.
+        if let Some(start_state) = pd.start_states.first() {
+            let start_node = Node {
+                state: start_state.clone(),
+                parent_index: None,
+            };
+            self.start_tree.push(start_node);
+        }
 
         // Draw the goal-tree root from the planner's own generator when a seed was configured,
         // so that seeded runs are reproducible; fall back to the thread generator otherwise.
@@ -260,8 +262,9 @@ where
         let goal = &pd.goal;
 
         // The root of the start tree is the start state: it must be valid, like every other node.
-        if !vc.is_valid(&self.start_tree[0].state) {
-            return Err(PlanningError::InvalidStartState);
+        match self.start_tree.first() {
+            Some(root) if vc.is_valid(&root.state) => {}
+            _ => return Err(PlanningError::InvalidStartState),
         }
 
         // Taken only once no early return is left; handed back below so that a later solve() or
